@@ -81,6 +81,20 @@ def make(rng):
             pairs_ = [[(u, c), (c, w)] for u in G.predecessors(c) for w in G.successors(c)]
             rng.shuffle(pairs_)
             cons = pairs_[:4]
+    elif r < 0.7 and not node:
+        # a "shortcut" edge (a,c) for which a longer route a -> .. -> c exists, together with a neighbouring edge:
+        # containment has to be decided on EDGES, visiting both endpoints is not enough
+        short = []
+        for (a, c) in G.edges():
+            H = G.copy(); H.remove_edge(a, c)
+            if nx.has_path(H, a, c):
+                short.append((a, c))
+        if short:
+            a, c = rng.choice(short)
+            nxt = [(c, d) for d in G.successors(c)]; prv = [(p_, a) for p_ in G.predecessors(a)]
+            con = ([rng.choice(prv)] if prv and rng.random() < 0.5 else []) + [(a, c)] + ([rng.choice(nxt)] if nxt else [])
+            if len(con) >= 2:
+                cons = [con]; info["force_default_options"] = True      # the greedy shortcut decides containment itself
     if cons and node:
         cn = []
         for c in cons:
@@ -103,7 +117,7 @@ def make(rng):
     live = [x for x in (G.nodes() if node else G.edges()) if x not in ign and "flow" in (G.nodes[x] if node else G.edges[x])]
     if not live:
         kw.pop("elements_to_ignore", None); ign = []
-    kw["optimization_options"] = dict(rng.choice(OPTS))
+    kw["optimization_options"] = {} if info.get("force_default_options") else dict(rng.choice(OPTS))
     info.update({"G": G, "kwargs": kw, "cons": cons, "ignore": ign, "paths": paths, "weights": ws})
     return info
 
@@ -143,6 +157,8 @@ def corpus():
                 "ignore": k.get("elements_to_ignore", []), "paths": [], "weights": []}
     bow = [("a1", "c", 2), ("a2", "c", 2), ("c", "b1", 2), ("c", "b2", 2)]
     out.append(inst(bow, subpath_constraints=[[(a, "c"), ("c", b)] for a in ("a1", "a2") for b in ("b1", "b2")]))   # constrained minimum 4 > |E|-|V|+2
+    out.append(inst([("s", "a", 10), ("a", "b", 7), ("b", "c", 7), ("a", "c", 3), ("c", "d", 7), ("c", "e", 3), ("d", "t", 7), ("e", "t", 3)],
+                    subpath_constraints=[[("a", "c"), ("c", "d")]]))                    # shortcut edge a->c next to the route a->b->c (greedy default)
     out.append(inst([("a", "b", 3)]))                                                   # minimum = |E| = 1
     out.append(inst([("s", "a", 3), ("s", "b", 2), ("s", "c", 1)]))                     # star: minimum = |E|
     out.append(inst([(f"v{i}", f"v{i+1}", i + 1) for i in range(9)], elements_to_ignore=[(f"v{i}", f"v{i+1}") for i in range(8)]))
@@ -196,6 +212,10 @@ def run(ctx):
                         if "flow" in d and v not in info["ignore"] and abs(float(acc[v]) - d["flow"]) > 1e-6), None)
         if why:
             ctx.report("MinFlowDecomp solution does not explain the flow: " + why, rep); continue
+        if info["cons"] and not info["node"]:
+            whyc = props.constraint_covered(info["cons"], sol["paths"])
+            if whyc:
+                ctx.report("MinFlowDecomp solution violates a subpath constraint: " + whyc, rep); continue
         if any(w <= 1e-9 for w in sol["weights"]) and kmin is not None and len(sol["paths"]) > kmin:
             pass
         if kmin is None:
